@@ -30,7 +30,7 @@ def run_one(frozen, root, mid, patch, props_to_run, tier):
             return mid, dict(error="patch does not apply: " + (r.stderr or r.stdout)[:200])
     env = dict(os.environ, VERIF_REPO=work + "/repo", VERIF_EVIDENCE_DIR=work + "/ev", VERIF_REPLAY_DIR=work + "/rep",
                VERIF_SCRATCH=work)
-    if not os.environ.get("SEEDED_FULL"):
+    if not os.environ.get("SEEDED_FULL") and not os.environ.get("VERIF_ONLY"):
         # page-table family: run only the harnesses of the mapper(s) the change can reach (a subset that reports the
         # violation is a lower bound for the registered check, which runs a superset)
         files = " ".join(l[6:].strip() for l in open(patch) if l.startswith("+++ b/"))
@@ -52,6 +52,7 @@ def run_one(frozen, root, mid, patch, props_to_run, tier):
         detail = [l.strip() for l in text.splitlines() if l.startswith("  harness=")]
         other = [l.strip()[:300] for l in text.splitlines() if l.startswith(("INCONCLUSIVE", "UNCONFIRMED", "KNOWN-FINDING"))]
         out[prop] = dict(rc=rc, caught=(rc == 1 and bool(viol)), violation_lines=len(viol), first=detail[:3],
+                         subset=dict(only=env.get("VERIF_ONLY", ""), skip=env.get("VERIF_SKIP", "")),
                          notes=other[:4], wall_s=round(time.time() - t0))
         print(f"{mid} {prop}: rc={rc} caught={out[prop]['caught']} {round(time.time()-t0)}s {detail[:1] or other[:1]}", flush=True)
     shutil.rmtree(work, ignore_errors=True)
